@@ -8,7 +8,10 @@ Open Scope Z_scope.
 
 Definition franges := list (Z * Z * Z).                 (* series, min time, max time *)
 Definition fobs := (Z * franges)%type.                  (* sequence, ranges *)
-Record obs := { o_dump : table; o_ord : list fobs; o_ooo : list fobs }.
+(* a shaped read as observed: time range, selected fields, direction, and the rows of all series (series ascending, the
+   rows of each series in the order delivered) *)
+Definition robs := (Z * Z * list Z * bool * list row)%type.
+Record obs := { o_dump : table; o_ord : list fobs; o_ooo : list fobs; o_reads : list robs }.
 
 Fixpoint list_eqb {A} (eqb : A -> A -> bool) (a b : list A) : bool :=
   match a, b with
@@ -59,7 +62,13 @@ Definition step_obs (wc : bool) (mc : Z) (nser : nat) (L : layout) (o : op) (dum
   | _ => step2 wc mc L o
   end.
 
-(* code: 1 dump differs, 2 ordered files differ, 3 out-of-order files differ, 4 op parameters not allowed, 5 layout invariant broken *)
+Definition read_shaped (nser : nat) (L : layout) (tmin tmax : Z) (fs : list Z) (asc : bool) : list row :=
+  concat (map (fun s => read_layout L s tmin tmax fs asc) (zrange nser)).
+Definition reads_ok (nser : nat) (L : layout) (rs : list robs) : bool :=
+  forallb (fun r : robs => match r with (tmin, tmax, fs, asc, rows) => list_eqb row_eqb (read_shaped nser L tmin tmax fs asc) rows end) rs.
+
+(* code: 1 dump differs, 2 ordered files differ, 3 out-of-order files differ, 4 op parameters not allowed, 5 layout invariant
+   broken, 6 a shaped read (sub-range / field subset / descending / multi-series tag set) differs *)
 Fixpoint check_from (wc : bool) (mc : Z) (nser : nat) (i : nat) (L : layout) (h : list (op * obs)) : option (nat * nat) :=
   match h with
   | [] => None
@@ -70,6 +79,7 @@ Fixpoint check_from (wc : bool) (mc : Z) (nser : nat) (i : nat) (L : layout) (h 
       if negb (list_eqb row_eqb (read_all nser L') (o_dump ob)) then Some (i, 1%nat) else
       if negb (list_eqb fobs_eqb (files_obs nser (ord L')) (o_ord ob)) then Some (i, 2%nat) else
       if negb (list_eqb fobs_eqb (files_obs nser (ooo L')) (o_ooo ob)) then Some (i, 3%nat) else
+      if negb (reads_ok nser L' (o_reads ob)) then Some (i, 6%nat) else
       check_from wc mc nser (S i) L' r
   end.
 
